@@ -3,7 +3,7 @@ import json, os
 from ..facts import ty_adt, tystr, walk_ty, place_local, place_proj, op_place
 from ..cfg import CFG, Tracer
 from .. import inline, dt, instance, core
-from . import c06
+from . import c06, c01
 
 JSON_CT = "conjure_http::private::APPLICATION_JSON"
 OCTET_CT = "conjure_http::private::APPLICATION_OCTET_STREAM"
@@ -28,7 +28,8 @@ EXPLANATION = (
     "through the same gate; (R18.4) blocking/async twins perform the same call sequence; (R18.5) unlimited reassembly: every "
     "chunk obtained is appended or is the sole chunk returned, stream errors only through `?`; (R18.6) panic inventory; (R18.7) "
     "every generated client method of the instance (28 endpoints x 2 flavours x 2 configs) asks for and decodes the class its "
-    "IR return type prescribes, propagates send's error with `?` and returns the helper's result unchanged. NOT decided: "
+    "IR return type prescribes, propagates send's error with `?` and returns the helper's result unchanged; (R18.8 = C01 R1.5, client rows) "
+    "the client readers deliver a string in a double position as a double only for the three Conjure spellings. NOT decided: "
     "serde_json's parsing.")
 
 
@@ -275,6 +276,10 @@ def run(ctx):
                 ctx.check(ok and ret_direct, "R18.7", b.loc(), f"{key}|flow", f"{key}: the decoder must receive send()'s successful response and its result must be returned unchanged", instance=f"{key}: send()? -> decode -> return")
             else:
                 ctx.check(len(send) == 1, "R18.7", b.loc(), f"{key}|send", f"{key}: expected exactly one send() call", nontrivial=False)
+
+    # R18.8: the client readers' own tables — a string in a double position is a double only for the three Conjure spellings
+    ctx.include(c01, {"R1.5"}, "R18.8", "a response body holding a string where a double is declared is not a well-formed document of the return type and must be refused",
+                select=lambda k: " client " in k)
 
 
 def returns_value_of(body, call_bb):
